@@ -179,6 +179,9 @@ def c10(run):
     rt_negative(run, "hdr", "D16", max_hdr=1)
     rt_family(run, "hdr_2x2x1", "hdr", 2, 2, 1 if quick else 2, invs=("DispatchIff", "TreeSorted", "AcceptIff"), sample=48,
               max_cases=7000 if quick else 300000)
+    # three registrations of one-segment routes over two methods (single- and two-method calls), no Headers(): the
+    # shortcut table must agree with the tree of EACH method
+    rt_family(run, "hdr_3x1x0", "hdr", 3, 1, 0, invs=("DispatchIff", "TreeSorted", "AcceptIff"), sample=8)
     if not quick:
         rt_family(run, "hdr_3x1x1", "hdr", 3, 1, 1, invs=("DispatchIff", "TreeSorted", "AcceptIff"))
     rt_random(run, "rand_hdr", "hdr", 300 if quick else 20000)
